@@ -155,7 +155,13 @@ def classTime (s : List Char) : Verdict :=
   match shape with
   | some true => .accept
   | some false => .reject
-  | none => if s.all timeChar || anyLenient s then (if s.isEmpty then .reject else .unspec) else .reject
+  | none =>
+    if s.isEmpty then .reject
+    -- no ISO 8601 time has two zone designators, a `Z` that is not the last character, a `Z` next to a numeric offset,
+    -- or a `T` anywhere but in front: malformed, whatever else the string looks like
+    else if (s.filter (· == 'Z')).length ≥ 2 || (s.contains 'Z' && s.getLast? != some 'Z') ||
+            (s.contains 'Z' && (s.contains '+' || s.contains '-')) || (s.drop 1).contains 'T' then .reject
+    else if s.all timeChar || anyLenient s then .unspec else .reject
 
 def isLeap (y : Nat) : Bool := (y % 4 == 0 && y % 100 != 0) || y % 400 == 0
 def daysIn (y m : Nat) : Nat :=
